@@ -64,6 +64,13 @@ func driveDefaults(r *gen.Rand, s *schema.Struct, v reflect.Value, depth int) {
 					}
 				case schema.String:
 					fv.SetString("")
+					if d.IsValid() && r.Bool() {
+						// a value that differs from the declared default but lives in the default's
+						// own storage (a prefix re-sliced from it, down to the empty prefix)
+						if ds := d.Field(f.Index).String(); len(ds) > 0 {
+							fv.SetString(ds[:r.Intn(len(ds))])
+						}
+					}
 				}
 			}
 			continue
